@@ -24,6 +24,7 @@ const (
 	kRec
 	kSlice
 	kFunc
+	kErr // the predeclared type error: option N (nil = None; a package-level error variable is Some of an opaque number)
 )
 
 type ty struct {
@@ -445,6 +446,9 @@ func (c *fctx) typeOf(t types.Type, p token.Pos) ty {
 		if _, ok := x.Underlying().(*types.Struct); ok {
 			return ty{k: kRec, rec: x}
 		}
+		if x.Obj().Pkg() == nil && x.Obj().Name() == "error" {
+			return ty{k: kErr}
+		}
 		if _, ok := x.Underlying().(*types.Interface); ok {
 			c.fail(p, "interface type %s", x.String())
 		}
@@ -477,6 +481,8 @@ func (c *fctx) coqTy(t ty, p token.Pos) string {
 		return "(list " + c.coqTy(*t.elem, p) + ")"
 	case kFunc:
 		return "(" + c.coqSig(t.sig, p) + ")"
+	case kErr:
+		return "(option N)"
 	}
 	return "?"
 }
@@ -512,6 +518,8 @@ func (c *fctx) zero(t ty, p token.Pos) string {
 		return "false"
 	case kSlice:
 		return "(@nil " + c.coqTy(*t.elem, p) + ")"
+	case kErr:
+		return "(@None N)"
 	case kRec:
 		r := c.record(t.rec, p)
 		s := "(mk_" + r.name
@@ -751,6 +759,11 @@ func (c *fctx) namedResults() []string {
 func isInterface(t types.Type) bool {
 	_, ok := t.Underlying().(*types.Interface)
 	return ok
+}
+
+func isErrorType(t types.Type) bool {
+	n, ok := t.(*types.Named)
+	return ok && n.Obj().Pkg() == nil && n.Obj().Name() == "error"
 }
 
 func tuple(xs []string) string {
@@ -1878,8 +1891,10 @@ func (c *fctx) isLenCall(call *ast.CallExpr) bool {
 func (c *fctx) exprAs(e ast.Expr, want types.Type) string {
 	tv := c.info.Types[e]
 	if tv.IsNil() && want != nil {
-		if t := c.typeOf(want, e.Pos()); t.k == kSlice {
-			return c.zero(t, e.Pos()) // a nil slice is the empty list
+		// a nil slice is the empty list; a nil error is None; a nil *T is read as the zero
+		// record (README, semantics assumptions: the accompanying error value discriminates)
+		if t := c.typeOf(want, e.Pos()); t.k == kSlice || t.k == kErr || t.k == kRec {
+			return c.zero(t, e.Pos())
 		}
 	}
 	if tv.Value != nil && want != nil {
@@ -1958,6 +1973,10 @@ func (c *fctx) expr(e ast.Expr) string {
 		case *types.Var:
 			if name, ok := c.opaqueVar(o); ok {
 				t := c.typeOf(o.Type(), x.Pos())
+				if t.k == kErr {
+					c.addOpq(opq{name: name, typ: "N"}, x.Pos())
+					return "(Some " + name + ")"
+				}
 				c.addOpq(opq{name: name, typ: c.coqTy(t, x.Pos())}, x.Pos())
 				return name
 			}
@@ -2413,6 +2432,15 @@ func (c *fctx) callN(x *ast.CallExpr, nres int) string {
 			}
 			c.fail(x.Pos(), "call of the function variable %s", fn.Name)
 		}
+	case *ast.CallExpr:
+		// f(a)(b): the call of a function returned by a call
+		if sig, ok := c.info.TypeOf(fn).Underlying().(*types.Signature); ok {
+			parts := []string{c.expr(fn)}
+			for i, a := range x.Args {
+				parts = append(parts, c.exprAs(a, sig.Params().At(i).Type()))
+			}
+			return "(" + strings.Join(parts, " ") + ")"
+		}
 	case *ast.SelectorExpr:
 		if sel, ok := c.info.Selections[fn]; ok {
 			if sel.Kind() == types.FieldVal {
@@ -2454,11 +2482,19 @@ func (c *fctx) callN(x *ast.CallExpr, nres int) string {
 				if ifv == nil || !c.isParam(ifv) {
 					c.fail(x.Pos(), "opaque interface method %s called on something other than an interface-typed parameter", name)
 				}
+				if n, idx := c.ifaceParams(ifv); n > 1 {
+					name = fmt.Sprintf("%s_%d", name, idx)
+					parts[0] = name
+				}
 			}
 		}
 		for i, a := range x.Args {
-			parts = append(parts, c.exprAs(a, sig.Params().At(i).Type()))
-			tys = append(tys, c.coqTy(c.typeOf(sig.Params().At(i).Type(), x.Pos()), x.Pos()))
+			pt := sig.Params().At(i).Type()
+			if isInterface(pt) && !isErrorType(pt) && !isInterface(c.info.TypeOf(a)) {
+				pt = c.info.TypeOf(a) // an opaque function applied to a value of concrete type
+			}
+			parts = append(parts, c.exprAs(a, pt))
+			tys = append(tys, c.coqTy(c.typeOf(pt, x.Pos()), x.Pos()))
 		}
 		var rs []string
 		for i := 0; i < sig.Results().Len(); i++ {
